@@ -53,12 +53,24 @@ Cmp(nm, ty, pre, mods) == [name |-> nm, type |-> ty, pre |-> pre, mods |-> mods]
 Ext(b, mods)    == [base |-> b, mods |-> mods]
 Ali(nm, a, v)   == [name |-> nm, attr |-> a, val |-> v]        \* nested  type nm = Real(a = v)
 Cls(nm, k, exts, als, comps, eqs) ==
-    [name |-> nm, kind |-> k, ext |-> exts, alias |-> als, comps |-> comps, eqs |-> eqs]
+    [name |-> nm, kind |-> k, ext |-> exts, alias |-> als, comps |-> comps, eqs |-> eqs,
+     repl |-> <<>>, crefs |-> <<>>, uses |-> {}, algs |-> <<>>]
+(* further constructs: replaceable nested classes  replaceable model nm = def  (redeclared by a
+   modification [path = <<nm>>, attr = "redeclare", val = target class]); constants read through a
+   class path  var = cls.sym  (the referenced symbol is pulled into the flat model as "cls.sym");
+   user functions called from equations (`uses`) and algorithm sections of functions           *)
+Rpl(nm, d)      == [name |-> nm, def |-> d]
+CRef(v, c, sy)  == [var |-> v, cls |-> c, sym |-> sy]
+WithRepl(c, r)  == [c EXCEPT !.repl = r]
+WithCRefs(c, r) == [c EXCEPT !.crefs = r]
+WithUses(c, u)  == [c EXCEPT !.uses = u]
+WithAlgs(c, a)  == [c EXCEPT !.algs = a]
 
-NLibs == 6
+NLibs == 9
 
 LibName(i) == CASE i = 1 -> "conn" [] i = 2 -> "extmod" [] i = 3 -> "shadow"
                 [] i = 4 -> "alias" [] i = 5 -> "chain" [] i = 6 -> "mixed"
+                [] i = 7 -> "redecl" [] i = 8 -> "constref" [] i = 9 -> "func"
 
 LibDef(i) ==
   CASE i = 1 ->   \* connectors: a connector-typed symbol is rewritten to a string
@@ -111,12 +123,48 @@ LibDef(i) ==
            <<"V = A * (HQ.H - Hb)">>),
        Cls("Main", "model", <<>>, <<>>,
            <<Cmp("e", "Lin", "", <<Mod(<<"Hb">>, "value", 2), Mod(<<"A">>, "value", 1000)>>)>>, <<>>) >>
+  [] i = 7 ->     \* class redeclaration (component modification and extends clause); the class redeclared TO
+                  \* has a class-typed component with a declaration modification
+    << Cls("R", "model", <<>>, <<>>,
+           <<Cmp("k", "Real", "parameter", <<Mod(<<>>, "value", 1)>>), Cmp("y", "Real", "", <<>>)>>, <<"y = k">>),
+       Cls("S1", "model", <<>>, <<>>,
+           <<Cmp("p", "Real", "parameter", <<Mod(<<>>, "value", 1)>>), Cmp("x", "Real", "", <<>>)>>, <<"x = p">>),
+       Cls("S2", "model", <<>>, <<>>,
+           <<Cmp("p", "Real", "parameter", <<Mod(<<>>, "value", 2)>>),
+             Cmp("r", "R", "", <<Mod(<<"k">>, "value", 7)>>), Cmp("x", "Real", "", <<>>)>>, <<"x = (p + r.y)">>),
+       WithRepl(Cls("A", "model", <<>>, <<>>, <<Cmp("s", "Sub", "", <<Mod(<<"p">>, "value", 5)>>)>>, <<>>),
+                <<Rpl("Sub", "S1")>>),
+       Cls("B", "model", <<>>, <<>>, <<Cmp("a", "A", "", <<Mod(<<"Sub">>, "redeclare", "S2")>>)>>, <<>>),
+       Cls("C", "model", <<>>, <<>>, <<Cmp("s2", "S2", "", <<Mod(<<"p">>, "value", 3)>>)>>, <<>>),
+       Cls("D", "model", <<Ext("A", <<Mod(<<"Sub">>, "redeclare", "S2")>>)>>, <<>>, <<>>, <<>>) >>
+  [] i = 8 ->     \* a constant read through a class path, and modifications of that very symbol elsewhere
+    << Cls("M1", "model", <<>>, <<>>,
+           <<Cmp("f", "Real", "constant", <<Mod(<<>>, "value", 3)>>),
+             Cmp("q", "Real", "parameter", <<Mod(<<>>, "value", 1)>>), Cmp("v", "Real", "", <<>>)>>, <<"v = (f * q)">>),
+       WithCRefs(Cls("User", "model", <<>>, <<>>, <<Cmp("g", "Real", "", <<>>)>>, <<>>), <<CRef("g", "M1", "f")>>),
+       Cls("N", "model", <<>>, <<>>,
+           <<Cmp("m1", "M1", "", <<Mod(<<"f">>, "value", 4), Mod(<<"q">>, "value", 2)>>)>>, <<>>),
+       Cls("N2", "model", <<Ext("M1", <<Mod(<<"f">>, "value", 5)>>)>>, <<>>, <<>>, <<>>),
+       Cls("W", "model", <<>>, <<>>, <<Cmp("u", "User", "", <<>>), Cmp("m", "M1", "", <<Mod(<<"q">>, "value", 6)>>)>>, <<>>) >>
+  [] i = 9 ->     \* a user function called from models, directly, through a component and through extends
+    << WithAlgs(Cls("fn", "function", <<>>, <<>>,
+                    <<Cmp("u", "Real", "input", <<>>), Cmp("v", "Real", "output", <<>>)>>, <<>>), <<"v := (2 * u)">>),
+       WithUses(Cls("G", "model", <<>>, <<>>, <<Cmp("x", "Real", "", <<>>), Cmp("y", "Real", "", <<>>)>>,
+                    <<"x = 1", "y = fn(x)">>), {"fn"}),
+       WithUses(Cls("H", "model", <<>>, <<>>, <<Cmp("g", "G", "", <<>>), Cmp("z", "Real", "", <<>>)>>,
+                    <<"z = fn(g.y)">>), {"fn"}),
+       Cls("K", "model", <<Ext("G", <<>>)>>, <<>>, <<Cmp("w", "Real", "", <<Mod(<<>>, "start", 2)>>)>>, <<"w = y">>) >>
 
 Range(s) == {s[k] : k \in DOMAIN s}
 L == LibDef(lib)
 ClassNames(i) == {c.name : c \in Range(LibDef(i))}
 ClassOf(i, nm) == CHOOSE c \in Range(LibDef(i)) : c.name = nm
 AliasNames(c) == {a.name : a \in Range(c.alias)}
+ReplNames(c) == {r.name : r \in Range(c.repl)}
+(* classes named by redeclare modifications written in class c *)
+RedeclTargets(c) ==
+    {m.val : m \in {x \in UNION ({Range(c.ext[k].mods) : k \in DOMAIN c.ext}
+                                   \cup {Range(c.comps[k].mods) : k \in DOMAIN c.comps}) : x.attr = "redeclare"}}
 IsClassType(i, ty) == ty \in ClassNames(i)
 
 -----------------------------------------------------------------------------
@@ -129,6 +177,8 @@ Reach(i, nm) ==    \* classes whose objects a request for nm reads (itself, base
     LET c == ClassOf(i, nm) IN
     {nm} \cup UNION {Reach(i, c.ext[k].base) : k \in DOMAIN c.ext}
          \cup UNION {Reach(i, c.comps[k].type) : k \in {j \in DOMAIN c.comps : IsClassType(i, c.comps[j].type)}}
+         \cup UNION {Reach(i, d) : d \in {r.def : r \in Range(c.repl)} \cup RedeclTargets(c)
+                                          \cup {r.cls : r \in Range(c.crefs)} \cup c.uses}
 
 OwnObjs(i, nm) ==
     LET c == ClassOf(i, nm) IN
@@ -173,7 +223,7 @@ Mechs(i, seen) ==
    parse gives): flat variables with the attributes set by modifications.
    Outer modifications win; an extends clause's modification is outer to the
    base class's own ones.                                                    *)
-RECURSIVE Elems(_, _), EnvMods(_, _), Aliases(_, _)
+RECURSIVE Elems(_, _), EnvMods(_, _), Aliases(_, _), Repls(_, _), CRefs(_, _)
 Elems(i, nm) ==
     LET c == ClassOf(i, nm)
         RECURSIVE B(_)
@@ -189,6 +239,16 @@ Aliases(i, nm) ==
         RECURSIVE B(_)
         B(k) == IF k > Len(c.ext) THEN <<>> ELSE Aliases(i, c.ext[k].base) \o B(k + 1)
     IN  B(1) \o c.alias
+Repls(i, nm) ==
+    LET c == ClassOf(i, nm)
+        RECURSIVE B(_)
+        B(k) == IF k > Len(c.ext) THEN <<>> ELSE Repls(i, c.ext[k].base) \o B(k + 1)
+    IN  B(1) \o c.repl
+CRefs(i, nm) ==
+    LET c == ClassOf(i, nm)
+        RECURSIVE B(_)
+        B(k) == IF k > Len(c.ext) THEN <<>> ELSE CRefs(i, c.ext[k].base) \o B(k + 1)
+    IN  B(1) \o c.crefs
 
 NoAttrs == [a \in {} |-> 0]
 RECURSIVE ApplyAttrs(_, _)
@@ -207,6 +267,15 @@ Leaves(i, nm, outer, prefix) ==
     LET all == EnvMods(i, nm) \o outer
         als == Aliases(i, nm)
         es  == Elems(i, nm)
+        rps == Repls(i, nm)
+        Bound(r) ==          \* the class a replaceable name stands for: its default unless redeclared (outermost wins)
+            LET T(m) == m.attr = "redeclare" /\ m.path = <<r.name>>
+                rs == SelectSeq(all, T)
+            IN  IF rs = <<>> THEN r.def ELSE rs[Len(rs)].val
+        DeclAttrs(cn, sy) == LET cc == ClassOf(i, cn)
+                                 k == CHOOSE j \in DOMAIN cc.comps : cc.comps[j].name = sy
+                             IN  ApplyAttrs(NoAttrs, cc.comps[k].mods)
+        Pulled == {[name |-> prefix \o r.cls \o "." \o r.sym, attrs |-> DeclAttrs(r.cls, r.sym)] : r \in Range(CRefs(i, nm))}
         AliasAttrs(a) ==     \* nested type's own attribute, then class modifications aimed at the type
             ApplyAttrs(ApplyAttrs(NoAttrs, <<Mod(<<>>, a.attr, a.val)>>), Strip(all, a.name))
         One(e) ==
@@ -216,8 +285,11 @@ Leaves(i, nm, outer, prefix) ==
             THEN LET a == als[CHOOSE k \in DOMAIN als : als[k].name = e.type]
                  IN  {[name |-> prefix \o e.name,
                        attrs |-> ApplyAttrs(ApplyAttrs(AliasAttrs(a), e.mods), Strip(all, e.name))]}
+            ELSE IF \E k \in DOMAIN rps : rps[k].name = e.type
+            THEN Leaves(i, Bound(rps[CHOOSE k \in DOMAIN rps : rps[k].name = e.type]),
+                        e.mods \o Strip(all, e.name), prefix \o e.name \o ".")
             ELSE Leaves(i, e.type, e.mods \o Strip(all, e.name), prefix \o e.name \o ".")
-    IN  UNION {One(es[k]) : k \in DOMAIN es}
+    IN  UNION {One(es[k]) : k \in DOMAIN es} \cup Pulled
 
 FlatOf(i, nm) == Leaves(i, nm, <<>>, "")
 
@@ -266,7 +338,9 @@ ShapesOK ==
         /\ \A k \in DOMAIN c.ext : IsClassType(i, c.ext[k].base)
         /\ \A k \in DOMAIN c.comps :
               \/ c.comps[k].type = "Real" \/ IsClassType(i, c.comps[k].type)
-              \/ c.comps[k].type \in AliasNames(c)
+              \/ c.comps[k].type \in AliasNames(c) \/ c.comps[k].type \in ReplNames(c)
+        /\ \A d \in {r.def : r \in Range(c.repl)} \cup RedeclTargets(c) \cup {r.cls : r \in Range(c.crefs)} \cup c.uses :
+              IsClassType(i, d)
         /\ FlatOf(i, c.name) # {}
         /\ \A x, y \in FlatOf(i, c.name) : x.name = y.name => x = y
 
